@@ -1,9 +1,10 @@
 #!/usr/bin/env python3
 """Confirm a seeded change from a sub-agent and run the checks against it.
-usage: eval_seed.py <Cxx> [<seed-dir>]   (default seed dir /tmp/seed/<Cxx>/seed, worktree /tmp/seed/<Cxx>)"""
+usage: eval_seed.py <Cxx> [<seed-dir>]   (default seed dir $SEED_BASE/<Cxx>/seed, worktree $SEED_BASE/<Cxx>; SEED_BASE defaults to /tmp/seed)"""
 import sys, os, subprocess, json, re, shutil
 pid = sys.argv[1]
-wt = "/tmp/seed/%s" % pid
+BASE = os.environ.get("SEED_BASE", "/tmp/seed")
+wt = "%s/%s" % (BASE, pid)
 sd = sys.argv[2] if len(sys.argv) > 2 else os.path.join(wt, "seed")
 env = dict(os.environ, CARGO_NET_OFFLINE="true")
 
